@@ -793,6 +793,23 @@ fn translate_windowed(
         .map(|sort| translate_column_sort(&sort, ctx))
         .try_collect()?;
 
+    // the offsets of a RANGE frame are distances along the sort key: without a sort there
+    // is nothing to measure them on (and SQL rejects the frame)
+    let has_offset = |bound: &Option<rq::Expr>| {
+        bound.as_ref().is_some_and(|b| {
+            !matches!(b.kind, rq::ExprKind::Literal(Literal::Integer(0)))
+        })
+    };
+    if supports_frame
+        && order_by.is_empty()
+        && window.frame.kind == WindowKind::Range
+        && (has_offset(&window.frame.range.start) || has_offset(&window.frame.range.end))
+    {
+        return Err(
+            Error::new_simple("a window with `range:` offsets needs a `sort`").with_span(span),
+        );
+    }
+
     // Some dialects (e.g., Snowflake) require ORDER BY for window functions
     // When no ORDER BY is specified, use ORDER BY 1 as a fallback
     if order_by.is_empty() && ctx.dialect.requires_order_by_in_window_function() {
